@@ -566,6 +566,12 @@ for _pid in ("C16", "C18"):
             PROPS[_pid]["configs"][_tier] = PROPS[_pid]["configs"][_tier] + ["rel1p"]
     PROPS[_pid]["rule"] = PROPS[_pid]["rule"] + "; every section also in a process started with GOMAXPROCS=1"
 
+for _pid in ("C06", "C07"):
+    for _tier in ("quick", "thorough"):
+        if "relpure" not in PROPS[_pid]["configs"][_tier]:
+            PROPS[_pid]["configs"][_tier] = PROPS[_pid]["configs"][_tier] + ["relpure"]
+    PROPS[_pid]["rule"] = PROPS[_pid]["rule"] + "; every section also in a build with the purego tag"
+
 LEVELS = {'C01': ('exploration', "runtime monitoring of the real decoder on generated/mutated/hostile inputs: recover + child-process supervision, pointer-range monitor on Attributes[i].Value, MemStats delta, red-zone and poisoned placements, release/debug/race(checkptr) builds; says 'held on K inputs', catches dropped or weakened length guards, aliasing entry points and length-field-proportional allocation", 'differential + memory-view monitor over generated inputs'), 'C02': ('exploration', 'differential monitor against an independent RFC 5389 parser; the space of length structures up to a body bound is enumerated completely, the rest is seeded random/mutated; Get/Contains/ForEach checked against list semantics on every accepted input', 'differential testing vs reference parser, bounded-exhaustive'), 'C03': ('exploration', 'after-every-operation invariant monitor over random building sequences with a shadow (type,value) list: reference parse of Raw == shadow == struct == library decode, Equal, zero padding, canonical bytes after Encode', 'invariant monitor over operation sequences'), 'C04': ('exploration', 'differential monitor: library Check verdict vs crypto/hmac over the span chosen by the reference parser, on hand-encoded variants, library-signed messages, wrong keys and every single-bit flip; release and debug builds', 'differential oracle + exhaustive bit-flip sweep per message'), 'C05': ('exploration', 'differential monitor against a bitwise CRC-32; every bit position of each fingerprinted message and random bursts; arbitrary FINGERPRINT placements judged by the iff', 'differential oracle + exhaustive bit-flip sweep per message'), 'C06': ('exploration', 'two-way differential against independent RFC encoders/decoders; ports, text lengths and error codes swept completely, the rest random', 'differential testing vs reference codecs'), 'C07': ('exploration', 'metamorphic twin monitor (same value, different surroundings/position/capacity) + before/after snapshot + red-zone placement over the complete getter x length x position x capacity grid', 'metamorphic twins + snapshot monitor'), 'C08': ('exploration', 'fresh-twin differential over chains of uses with poisoned spare capacity and scribbled caller buffers', 'fresh-twin differential with poisoning'), 'C09': ('exploration', 'boundary sweep of every setter against a hard-coded limit table with before/after snapshots and call counters for Build', 'boundary sweep + snapshot monitor'), 'C10': ('exploration', 'online comparison with an executable client model on all short histories, targeted pairwise control-point interleavings through the public seams, and an exactly-once ledger over perturbed concurrent runs (also under the race detector)', 'model-based history checking + exactly-once ledger over event logs'), 'C11': ('exploration', 'write-log oracle with virtual timestamps along complete retransmission schedules, plus the model and ledger workloads of C10 with the write oracle', 'trace checking of the write log under virtual time'), 'C12': ('exploration', 'unique-payload ledger: every datagram is tagged, every handler copies what it sees; routing decided at delivery time is compared with what handlers and the fallback handler observed; pool churn; race detector', 'unique-value ledger over handler and fallback logs'), 'C13': ('exploration', 'the real Agent is run next to an executable transaction-table model on EVERY call sequence up to the depth bound (all abstract table states visited) and on long random sequences with re-entrant handlers', 'exhaustive bounded model conformance'), 'C14': ('exploration', 'recorded concurrent histories checked for linearizability with porcupine against the C13 model, Go race detector, stuck-goroutine watchdog', 'linearizability checking of recorded histories (porcupine) + race detector'), 'C15': ('exploration', 'ledger over simulated-world counters and logical stamps, process-wide goroutine dump scan after Close, race detector; option product and Close placed everywhere', 'ledger + goroutine-dump scan + race detector'), 'C16': ('exploration', 'the supervising process is the oracle: children with a 1 MiB stack limit and heap watchdog, crash journal naming the input, confirmation re-run; exhaustive short strings + random long ones', 'process-level supervision with crash journal'), 'C17': ('exploration', 'expected components known by construction over the complete grammar product; round trip; DialURI observed through an injected recording network (network, address, first bytes: ClientHello vs plaintext, server name)', 'components-by-construction differential + recording fake network'), 'C18': ('exploration', 'every digest of random acquire/write/sum/reset/put programs compared with crypto/hmac, single- and multi-goroutine, race detector', 'differential vs crypto/hmac under pool reuse'), 'C19': ('exploration', "complete domain (16384 + 65536 points) against a bit-by-bit table from RFC 5389 figure 3: for this property 'held on what was observed' is the whole statement", 'exhaustive enumeration of the complete domain'), 'C20': ('exploration', 'testing.AllocsPerRun per operation and generated message in a dedicated single-P process with GC off, two warm-up regimes, repeat-to-confirm', 'allocation monitor (AllocsPerRun) in a dedicated process')}
 
 for _pid, (_cat, _text, _tech) in LEVELS.items():
